@@ -40,7 +40,8 @@ ASSUMPTIONS = ['torch.save/torch.load themselves are trusted (the real serialise
                'and the property promises nothing about corrupted media',
                'a save that raised leaves an indeterminate file: nothing is asserted about loading it']
 REAL = ['torchtt.save/load/clone/detach/to/cpu/numpy from the working tree', 'torch.save / torch.load (real serialiser)']
-STUB = ['disk: in-memory SimFS (dict path -> bytes) behind torchtt._extras.tn.save/load']
+STUB = ['disk: in-memory SimFS (dict path -> bytes) behind torchtt._extras.tn.save/load, written through to real files in a per-run '
+        'temporary directory so that memory-mapped loads behave as on a disk']
 
 INDET = 'INDETERMINATE'
 
